@@ -1441,13 +1441,20 @@ let alias_case (_input : string) (obs0 : string) : verdict =
 
 (* ---- C14 / C13: hand-written target types outside the model's type grammar (no model: the Go side
    compares with the plain twin type and checks the integrity of interface slots) ---- *)
-let exotic_case (_input : string) (obs0 : string) : verdict =
+let exotic_case (input : string) (obs0 : string) : verdict =
   let obs, flags = split_flags_all obs0 in
   let oracle = ref [] in
+  (* entries from index 19 on use an Unfolder that was given (and refused) another target before *)
+  let reused = (match words input with i :: _ -> (try int_of_string i >= 19 with _ -> false) | [] -> false) in
   (if obs = "PANIC" || obs = "HANG" then oracle := ("C14", "unfolder crashed or hung on a hand-written target type: " ^ obs) :: !oracle);
   (if starts_with obs "CORRUPT" then oracle := ("C14", "an interface slot of the target holds a value that does not implement it (unsafe write): " ^ obs) :: !oracle);
   (match List.filter (fun x -> starts_with x "TWIN ") flags with
-   | x :: _ -> oracle := ("C13", "named target type unfolds differently from its plain twin: " ^ obs ^ " vs " ^ x) :: !oracle
+   | x :: _ ->
+       if reused then begin
+         oracle := ("C14", "an Unfolder that refused a target before treats the next target differently from a new Unfolder: " ^ obs ^ " vs " ^ x) :: !oracle;
+         oracle := ("C17", "an Unfolder that refused a target before treats the next target differently from a new Unfolder: " ^ obs ^ " vs " ^ x) :: !oracle
+       end;
+       oracle := ("C13", "named target type unfolds differently from its plain twin: " ^ obs ^ " vs " ^ x) :: !oracle
    | [] -> ());
   { model = obs; oracle = !oracle }
 
@@ -1463,6 +1470,8 @@ let userfold_case (_input : string) (obs0 : string) : verdict =
        let verdict = match rest' with v :: _ -> v | [] -> "?" in
        let got = events_of_toks toks in
        (match find_flag "WANT" flags with
+        | Some "ERR" ->
+            if verdict <> "err" || got <> [] then bad ("Fold with an invalid option must return an error and deliver nothing: " ^ verdict)
         | Some w ->
             let want = events_of_toks (String.split_on_char '_' w) in
             if verdict <> "ok" then bad ("folding a value with a custom folder / Folder / IsZeroer failed: " ^ verdict)
